@@ -7,7 +7,11 @@ package main
 // cut into helpers (setTLSHeader(r, name, value), setIfAbsent(h, key, value), a bool "isTLS" parameter ...).
 
 import (
+	"fmt"
+	"go/constant"
 	"go/token"
+	"go/types"
+	"sort"
 	"strings"
 
 	"golang.org/x/tools/go/ssa"
@@ -79,7 +83,12 @@ func c08reqHeader(v ssa.Value) bool {
 				}
 			case *ssa.FreeVar:
 				return walk(a, d+1)
-			case *ssa.FieldAddr: // a field of a small local struct that carries the header map
+			case *ssa.FieldAddr: // a field of a small struct that carries the header map
+				for _, st := range c08storesToField(a.X.Type(), a.Field) {
+					if walk(st.Val, d+1) {
+						return true
+					}
+				}
 				if al, ok := a.X.(*ssa.Alloc); ok {
 					for _, r := range *al.Referrers() {
 						if fa, ok := r.(*ssa.FieldAddr); ok && fa.Field == a.Field {
@@ -90,6 +99,12 @@ func c08reqHeader(v ssa.Value) bool {
 							}
 						}
 					}
+				}
+			}
+		case *ssa.Field:
+			for _, st := range c08storesToField(x.X.Type(), x.Field) {
+				if walk(st.Val, d+1) {
+					return true
 				}
 			}
 		case *ssa.Call:
@@ -230,8 +245,153 @@ type c08key struct {
 }
 
 type c08keyAt struct {
-	key c08key
-	ctx c08ctx // the call chain under which the key has this value
+	key  c08key
+	ctx  c08ctx   // the call chain under which the key has this value
+	elem *c08elem // the key is a field of this element of a literal table the write loops over (else nil)
+}
+
+// c08elem is one element of a table literal ([]struct{ key, val string }{{...}, {...}}) a loop ranges over.
+type c08elem struct {
+	arr *ssa.Alloc // the backing array of the literal
+	idx int64
+}
+
+// c08elemField: v reads field f of "the current element" of a table: d.key with d := tbl[i] / for _, d := range tbl
+// (d a value or a local copy of the element) or tbl[i].key. Returns the table operand and the field.
+func c08elemField(v ssa.Value) (table ssa.Value, field int, ok bool) {
+	switch x := v.(type) {
+	case *ssa.Field:
+		if t, _, ok := c08elemBase(x.X); ok {
+			return t, x.Field, true
+		}
+	case *ssa.UnOp:
+		if fa, isFA := x.X.(*ssa.FieldAddr); isFA && x.Op == token.MUL {
+			if t, _, ok := c08elemBase(fa.X); ok {
+				return t, fa.Field, true
+			}
+		}
+	}
+	return nil, 0, false
+}
+
+// c08elemBase: x is (the address of / the value of / a local copy of) the element tbl[i] of a table.
+func c08elemBase(x ssa.Value) (table, index ssa.Value, ok bool) {
+	for k := 0; k < 4; k++ {
+		switch y := x.(type) {
+		case *ssa.IndexAddr:
+			return y.X, y.Index, true
+		case *ssa.UnOp:
+			if y.Op != token.MUL {
+				return nil, nil, false
+			}
+			x = y.X
+		case *ssa.Alloc:
+			// the loop variable / a local copy: assigned once, from the element
+			var from ssa.Value
+			if y.Referrers() == nil {
+				return nil, nil, false
+			}
+			for _, r := range *y.Referrers() {
+				if st, isSt := r.(*ssa.Store); isSt && st.Addr == y {
+					if from != nil {
+						return nil, nil, false
+					}
+					from = st.Val
+				}
+			}
+			if from == nil {
+				return nil, nil, false
+			}
+			x = from
+		default:
+			return nil, nil, false
+		}
+	}
+	return nil, nil, false
+}
+
+// c08backing: the array allocated for the literal the table operand denotes: a local literal (slice of / pointer to
+// the array) or a package-level variable initialised with one.
+func c08backing(table ssa.Value) *ssa.Alloc {
+	for k := 0; k < 4; k++ {
+		switch x := table.(type) {
+		case *ssa.Alloc:
+			if _, isArr := x.Type().Underlying().(*types.Pointer).Elem().Underlying().(*types.Array); isArr {
+				return x
+			}
+			return nil
+		case *ssa.Slice:
+			table = x.X
+		case *ssa.UnOp:
+			g, isG := x.X.(*ssa.Global)
+			if x.Op != token.MUL || !isG || len(gGlobalStores[g]) != 1 || gGlobalEscapes[g] {
+				return nil
+			}
+			table = gGlobalStores[g][0].Val
+		default:
+			return nil
+		}
+	}
+	return nil
+}
+
+// c08elemValues: what the literal stores into field `field` of each of its elements, by element index (nil if an
+// element is not given by constant index or the field is stored more than once).
+func c08elemValues(arr *ssa.Alloc, field int) map[int64]ssa.Value {
+	out := map[int64]ssa.Value{}
+	if arr.Referrers() == nil {
+		return nil
+	}
+	for _, r := range *arr.Referrers() {
+		ia, ok := r.(*ssa.IndexAddr)
+		if !ok || ia.Referrers() == nil {
+			continue
+		}
+		k, isK := constInt(ia.Index)
+		if !isK {
+			return nil
+		}
+		for _, r2 := range *ia.Referrers() {
+			var holder ssa.Value = ia
+			// the element built in a temporary and stored as a whole: *(&arr[k]) = *complit
+			if st, isSt := r2.(*ssa.Store); isSt && st.Addr == ia {
+				if u, isU := st.Val.(*ssa.UnOp); isU && u.Op == token.MUL {
+					if tmp, isA := u.X.(*ssa.Alloc); isA {
+						holder = tmp
+					}
+				}
+				if holder == ssa.Value(ia) {
+					continue
+				}
+			}
+			var fas []*ssa.FieldAddr
+			if holder == ssa.Value(ia) {
+				if fa, ok := r2.(*ssa.FieldAddr); ok {
+					fas = append(fas, fa)
+				}
+			} else if refs := holder.Referrers(); refs != nil {
+				for _, r3 := range *refs {
+					if fa, ok := r3.(*ssa.FieldAddr); ok {
+						fas = append(fas, fa)
+					}
+				}
+			}
+			for _, fa := range fas {
+				if fa.Field != field || fa.Referrers() == nil {
+					continue
+				}
+				for _, r3 := range *fa.Referrers() {
+					if st, ok := r3.(*ssa.Store); ok && st.Addr == fa {
+						if _, dup := out[k]; dup {
+							return nil
+						}
+						out[k] = st.Val
+					}
+				}
+			}
+		}
+	}
+	return out
 }
 
 // c08keys resolves a header-key operand: a constant, a config.Proxy field, or a helper parameter (one instance per
@@ -239,10 +399,10 @@ type c08keyAt struct {
 func c08keys(v ssa.Value, ctx c08ctx, depth int) []c08keyAt {
 	v, ctx = c08arg(v, ctx)
 	if k, ok := constString(v); ok {
-		return []c08keyAt{{c08key{"const", k}, ctx}}
+		return []c08keyAt{{c08key{"const", k}, ctx, nil}}
 	}
 	if f, ok := c08cfgField(v); ok {
-		return []c08keyAt{{c08key{"cfg", f}, ctx}}
+		return []c08keyAt{{c08key{"cfg", f}, ctx, nil}}
 	}
 	if p, ok := v.(*ssa.Parameter); ok && depth < 4 && len(ctx) == 0 {
 		idx := c08paramIndex(p)
@@ -253,10 +413,47 @@ func c08keys(v ssa.Value, ctx c08ctx, depth int) []c08keyAt {
 				continue
 			}
 			for _, ka := range c08keys(args[idx], nil, depth+1) {
-				out = append(out, c08keyAt{ka.key, append(c08ctx{s}, ka.ctx...)})
+				out = append(out, c08keyAt{ka.key, append(c08ctx{s}, ka.ctx...), ka.elem})
 			}
 		}
 		if len(out) > 0 {
+			return out
+		}
+	}
+	// the name is a field of the element of a literal table the code loops over: one instance per element
+	if table, field, ok := c08elemField(v); ok && depth < 4 {
+		if arr := c08backing(table); arr != nil {
+			var out []c08keyAt
+			for k, val := range c08elemValues(arr, field) {
+				for _, ka := range c08keys(val, nil, depth+1) {
+					out = append(out, c08keyAt{ka.key, ctx, &c08elem{arr, k}})
+				}
+			}
+			if len(out) > 0 {
+				sort.Slice(out, func(i, j int) bool { return out[i].elem.idx < out[j].elem.idx })
+				return out
+			}
+		}
+	}
+	// the name kept in a field of a carrier type of package proxy (tlsMarker{name: cfg.TLSHeader}.mark(h, secure))
+	if depth < 4 {
+		var stores []*ssa.Store
+		switch x := v.(type) {
+		case *ssa.Field:
+			stores = c08storesToField(x.X.Type(), x.Field)
+		case *ssa.UnOp:
+			if fa, ok := x.X.(*ssa.FieldAddr); ok && x.Op == token.MUL {
+				stores = c08storesToField(fa.X.Type(), fa.Field)
+			}
+		}
+		if len(stores) > 0 {
+			var out []c08keyAt
+			for _, st := range stores {
+				for _, ka := range c08keys(st.Val, nil, depth+1) {
+					// the chain of the store is not the chain of the write: keep the write's own chain
+					out = append(out, c08keyAt{ka.key, ctx, nil})
+				}
+			}
 			return out
 		}
 	}
@@ -267,7 +464,7 @@ func c08keys(v ssa.Value, ctx c08ctx, depth int) []c08keyAt {
 		}
 		return out
 	}
-	return []c08keyAt{{c08key{"other", shortPath(v)}, ctx}}
+	return []c08keyAt{{c08key{"other", shortPath(v)}, ctx, nil}}
 }
 
 // c08cfgField: v is a load of a field of config.Proxy; returns the field name.
@@ -298,14 +495,24 @@ type c08write struct {
 	m     string // Set, Add, Del
 	key   c08key
 	ctx   c08ctx
+	elem  *c08elem // the write is the instance for this element of a literal table (else nil)
 }
 
-// val: the value operand, mapped into the outermost context it can be resolved in.
+// val: the value operand, mapped into the outermost context it can be resolved in; for a write in a loop over a
+// literal table, the value the literal gives the SAME element.
 func (w *c08write) val() (ssa.Value, c08ctx) {
 	if len(w.cc.Args) < 3 {
 		return nil, w.ctx
 	}
-	return c08arg(w.cc.Args[2], w.ctx)
+	v, ctx := c08arg(w.cc.Args[2], w.ctx)
+	if w.elem != nil {
+		if table, field, ok := c08elemField(v); ok && c08backing(table) == w.elem.arr {
+			if ev, ok := c08elemValues(w.elem.arr, field)[w.elem.idx]; ok {
+				return ev, ctx
+			}
+		}
+	}
+	return v, ctx
 }
 
 // outer: the instruction that stands for this write in the outermost function of its context.
@@ -356,7 +563,11 @@ func c08writes(fns []*ssa.Function) []*c08write {
 			return
 		}
 		for _, ka := range c08keys(cc.Args[1], nil, 0) {
-			out = append(out, &c08write{fn: f, instr: i, cc: cc, m: m, key: ka.key, ctx: ka.ctx})
+			// a set(h, key, value) helper shared with the response headers: the receiver in THIS chain
+			if recv, _ := c08arg(cc.Args[0], ka.ctx); !c08reqHeader(recv) {
+				continue
+			}
+			out = append(out, &c08write{fn: f, instr: i, cc: cc, m: m, key: ka.key, ctx: ka.ctx, elem: ka.elem})
 		}
 	})
 	return out
@@ -373,7 +584,18 @@ type c08fact struct {
 // directly or in a helper.
 var c08handoff = liftMay(func(i ssa.Instruction) bool {
 	cc := callCommon(i)
-	return cc != nil && cc.IsInvoke() && cc.Method.Name() == "ServeHTTP"
+	if cc == nil {
+		return false
+	}
+	if cc.IsInvoke() {
+		return cc.Method.Name() == "ServeHTTP"
+	}
+	// a concrete handler (*httputil.ReverseProxy, a handler type of package proxy) called directly
+	if sc := cc.StaticCallee(); sc != nil {
+		return sc.Name() == "ServeHTTP" && sc.Signature.Recv() != nil
+	}
+	// a handler kept as a function value: h(w, r) with h an http.HandlerFunc
+	return namedIs(cc.Value.Type(), "net/http.HandlerFunc")
 })
 
 func c08localFacts(b *ssa.BasicBlock, ctx c08ctx) []c08fact {
@@ -426,6 +648,11 @@ func c08implies(v ssa.Value, truth bool, ctx c08ctx, atom c08atom, depth int) bo
 		if x.Op == token.NOT {
 			return c08implies(x.X, !truth, ctx, atom, depth+1)
 		}
+		if fa, ok := x.X.(*ssa.FieldAddr); ok && x.Op == token.MUL {
+			return c08fieldImplies(fa.X.Type(), fa.Field, truth, atom, depth)
+		}
+	case *ssa.Field:
+		return c08fieldImplies(x.X.Type(), x.Field, truth, atom, depth)
 	case *ssa.Phi:
 		n := 0
 		for k, e := range x.Edges {
@@ -492,6 +719,30 @@ func c08implies(v ssa.Value, truth bool, ctx c08ctx, atom c08atom, depth int) bo
 	return false
 }
 
+// c08fieldImplies: a verdict kept in a boolean field of a carrier type of package proxy (clientConn.secure): every value
+// stored into the field implies the atom; for the truth value false also no instance may be built without the field
+// (it would be false without anything having been tested).
+func c08fieldImplies(t types.Type, field int, truth bool, atom c08atom, depth int) bool {
+	if c08carrier(t) == nil {
+		return false
+	}
+	st, isStruct := c08carrier(t).Underlying().(*types.Struct)
+	if !isStruct || field >= st.NumFields() || !c08isBoolType(st.Field(field).Type()) {
+		return false
+	}
+	return c08fieldAlwaysIf(t, field, !truth, func(val ssa.Value) bool {
+		if cb, isK := constBool(val); isK {
+			return cb != truth // the opposite constant can never yield this truth value
+		}
+		return c08implies(val, truth, nil, atom, depth+1)
+	})
+}
+
+func c08isBoolType(t types.Type) bool {
+	b, ok := t.Underlying().(*types.Basic)
+	return ok && b.Info()&types.IsBoolean != 0
+}
+
 // c08known: some fact that holds at b (in context ctx) implies the atomic property.
 func c08known(b *ssa.BasicBlock, ctx c08ctx, atom c08atom, depth int) bool {
 	for _, f := range c08facts(b, ctx) {
@@ -499,7 +750,28 @@ func c08known(b *ssa.BasicBlock, ctx c08ctx, atom c08atom, depth int) bool {
 			return true
 		}
 	}
-	return false
+	// not established on the way down: a helper with several call sites (c08facts climbs through single call sites
+	// only) - the property is known if it is known at EVERY place the outermost function of the chain is called from
+	if b == nil || depth > 4 {
+		return false
+	}
+	outer := b.Parent()
+	if len(ctx) > 0 {
+		outer = ctx[len(ctx)-1].Parent()
+	}
+	sites := c08sitesOf(outer)
+	if outer == nil || len(sites) < 2 || !onlyStaticallyCalled(outer) {
+		return false
+	}
+	for _, s := range sites {
+		if _, isGo := s.(*ssa.Go); isGo || s.Block() == nil || s.Parent() == outer {
+			return false
+		}
+		if !c08known(s.Block(), nil, atom, depth+2) {
+			return false
+		}
+	}
+	return true
 }
 
 // c08edgeKnown: the property is known on the CFG edge pred -> succ.
@@ -519,26 +791,243 @@ func c08edgeKnown(pred, succ *ssa.BasicBlock, ctx c08ctx, atom c08atom, depth in
 
 // ---- atoms ----------------------------------------------------------------------------------------------------------
 
-// c08isTLS: v is the TLS field of a request, or a helper parameter that is passed one at every call.
+// c08isTLS: v is the TLS field of a request - directly, or carried unchanged: a helper parameter that is passed one at
+// every call, a field of a small carrier type of package proxy (connInfo.tls) that is only ever given one, the result
+// of an accessor that returns one on every path.
 func c08isTLS(v ssa.Value, ctx c08ctx) bool {
+	return c08allSources(v, ctx, func(x ssa.Value) bool {
+		_, ok := fieldOf(x, "http.Request", "TLS")
+		return ok
+	}, 0, map[ssa.Value]bool{})
+}
+
+// c08allSources: EVERY source of v (through merges, helper parameters at all their call sites, local cells, fields of
+// carrier types of package proxy, results of repository accessors) satisfies src. Unknown shapes: false.
+func c08allSources(v ssa.Value, ctx c08ctx, src func(ssa.Value) bool, depth int, seen map[ssa.Value]bool) bool {
 	v, ctx = c08arg(v, ctx)
-	if _, ok := fieldOf(v, "http.Request", "TLS"); ok {
+	if v == nil {
+		return false
+	}
+	if src(v) {
 		return true
 	}
-	p, ok := v.(*ssa.Parameter)
-	if !ok || len(ctx) > 0 || p.Parent() == nil || !onlyStaticallyCalled(p.Parent()) {
+	if depth > 8 || seen[v] {
 		return false
 	}
-	sites, idx := c08sitesOf(p.Parent()), c08paramIndex(p)
-	if len(sites) == 0 || idx < 0 {
-		return false
-	}
-	for _, s := range sites {
-		args := s.Common().Args
-		if idx >= len(args) {
+	seen[v] = true
+	defer delete(seen, v)
+	all := func(vals []ssa.Value, ctx c08ctx) bool {
+		if len(vals) == 0 {
 			return false
 		}
-		if _, ok := fieldOf(args[idx], "http.Request", "TLS"); !ok {
+		for _, x := range vals {
+			if !c08allSources(x, ctx, src, depth+1, seen) {
+				return false
+			}
+		}
+		return true
+	}
+	returnsOf := func(call *ssa.Call, idx int) ([]ssa.Value, bool) {
+		sc := call.Call.StaticCallee()
+		if sc == nil || !isRepoFn(sc) || len(sc.Blocks) == 0 {
+			return nil, false
+		}
+		var out []ssa.Value
+		eachInstr(sc, func(i ssa.Instruction) {
+			if r, ok := i.(*ssa.Return); ok && idx < len(r.Results) {
+				out = append(out, r.Results[idx])
+			}
+		})
+		return out, true
+	}
+	switch x := v.(type) {
+	case *ssa.Phi:
+		return all(x.Edges, ctx)
+	case *ssa.ChangeType:
+		return c08allSources(x.X, ctx, src, depth+1, seen)
+	case *ssa.Parameter:
+		if len(ctx) > 0 || x.Parent() == nil || !onlyStaticallyCalled(x.Parent()) {
+			return false
+		}
+		sites, idx := c08sitesOf(x.Parent()), c08paramIndex(x)
+		if len(sites) == 0 || idx < 0 {
+			return false
+		}
+		var args []ssa.Value
+		for _, s := range sites {
+			a := s.Common().Args
+			if idx >= len(a) {
+				return false
+			}
+			args = append(args, a[idx])
+		}
+		return all(args, nil)
+	case *ssa.Field:
+		return c08fieldAlways(x.X.Type(), x.Field, func(val ssa.Value) bool { return c08allSources(val, nil, src, depth+1, seen) })
+	case *ssa.UnOp:
+		if x.Op != token.MUL {
+			return false
+		}
+		switch a := x.X.(type) {
+		case *ssa.FieldAddr:
+			return c08fieldAlways(a.X.Type(), a.Field, func(val ssa.Value) bool { return c08allSources(val, nil, src, depth+1, seen) })
+		case *ssa.Alloc:
+			var vals []ssa.Value
+			if a.Referrers() != nil {
+				for _, r := range *a.Referrers() {
+					if st, ok := r.(*ssa.Store); ok && st.Addr == a {
+						vals = append(vals, st.Val)
+					}
+				}
+			}
+			return all(vals, ctx)
+		}
+	case *ssa.Call:
+		if x.Call.Signature().Results().Len() != 1 {
+			return false
+		}
+		if rs, ok := returnsOf(x, 0); ok {
+			return all(rs, append(c08ctx{x}, ctx...))
+		}
+	case *ssa.Extract:
+		if call, ok := x.Tuple.(*ssa.Call); ok {
+			if rs, ok := returnsOf(call, x.Index); ok {
+				return all(rs, append(c08ctx{call}, ctx...))
+			}
+		}
+	}
+	return false
+}
+
+// ---- fields of carrier types ------------------------------------------------------------------------------------------
+
+// c08cx: the analysis context of the current run (set by runC08 / runC08A4); the indexes below are per context.
+var (
+	c08cx         *Ctx
+	c08fieldIndex map[c08fieldKey][]*ssa.Store
+	c08allocIndex map[*types.Named][]*ssa.Alloc
+)
+
+type c08fieldKey struct {
+	t     *types.Named
+	field int
+}
+
+func c08setCtx(c *Ctx) {
+	if c08cx == c {
+		return
+	}
+	c08cx, c08fieldIndex, c08allocIndex = c, nil, nil
+}
+
+// c08carrier: the named struct type (through one pointer) if it is declared in package proxy or a sub-package.
+func c08carrier(t types.Type) *types.Named {
+	if p, ok := t.Underlying().(*types.Pointer); ok {
+		t = p.Elem()
+	}
+	n, _ := types.Unalias(t).(*types.Named)
+	if n == nil || n.Obj().Pkg() == nil || c08cx == nil {
+		return nil
+	}
+	if _, isStruct := n.Underlying().(*types.Struct); !isStruct {
+		return nil
+	}
+	sp := c08cx.spkg("proxy")
+	if sp == nil {
+		return nil
+	}
+	if path := n.Obj().Pkg().Path(); path != sp.Pkg.Path() && !strings.HasPrefix(path, sp.Pkg.Path()+"/") {
+		return nil
+	}
+	return n
+}
+
+func c08buildFieldIndex() {
+	if c08fieldIndex != nil || c08cx == nil {
+		return
+	}
+	c08fieldIndex = map[c08fieldKey][]*ssa.Store{}
+	c08allocIndex = map[*types.Named][]*ssa.Alloc{}
+	for _, f := range c08cx.AllFns {
+		if !c08family(c08cx, f) {
+			continue
+		}
+		eachInstr(f, func(i ssa.Instruction) {
+			switch x := i.(type) {
+			case *ssa.Store:
+				if fa, ok := x.Addr.(*ssa.FieldAddr); ok {
+					if n := c08carrier(fa.X.Type()); n != nil {
+						k := c08fieldKey{n, fa.Field}
+						c08fieldIndex[k] = append(c08fieldIndex[k], x)
+					}
+				}
+			case *ssa.Alloc:
+				if n := c08carrier(x.Type()); n != nil {
+					c08allocIndex[n] = append(c08allocIndex[n], x)
+				}
+			}
+		})
+	}
+}
+
+// c08storesToField: the stores to field `field` of the carrier type t anywhere in package proxy and its sub-packages
+// (nil for types of other packages: http.Request, config.Proxy ...).
+func c08storesToField(t types.Type, field int) []*ssa.Store {
+	n := c08carrier(t)
+	if n == nil {
+		return nil
+	}
+	c08buildFieldIndex()
+	return c08fieldIndex[c08fieldKey{n, field}]
+}
+
+// c08fieldAlways: the field of the carrier type always holds a value that satisfies ok: every store to it does, there
+// is at least one, and no instance is built without the field being given (a struct literal that leaves it out would
+// carry the zero value).
+func c08fieldAlways(t types.Type, field int, ok func(ssa.Value) bool) bool {
+	return c08fieldAlwaysIf(t, field, true, ok)
+}
+
+// c08fieldAlwaysIf: like c08fieldAlways; the zero value of an instance built without the field matters only if noZero.
+func c08fieldAlwaysIf(t types.Type, field int, noZero bool, ok func(ssa.Value) bool) bool {
+	n := c08carrier(t)
+	if n == nil {
+		return false
+	}
+	stores := c08storesToField(t, field)
+	if len(stores) == 0 {
+		return false
+	}
+	for _, st := range stores {
+		if !ok(st.Val) {
+			return false
+		}
+	}
+	if !noZero {
+		return true
+	}
+	for _, a := range c08allocIndex[n] {
+		if a.Referrers() == nil {
+			continue
+		}
+		given, copied := false, false
+		for _, r := range *a.Referrers() {
+			switch x := r.(type) {
+			case *ssa.FieldAddr:
+				if x.Field == field && x.Referrers() != nil {
+					for _, r2 := range *x.Referrers() {
+						if st, isSt := r2.(*ssa.Store); isSt && st.Addr == x {
+							given = true
+						}
+					}
+				}
+			case *ssa.Store:
+				if x.Addr == a {
+					copied = true // the cell of a parameter / a copy of an existing instance
+				}
+			}
+		}
+		if !given && !copied {
 			return false
 		}
 	}
@@ -581,62 +1070,114 @@ func c08sameKey(k ssa.Value, ctx c08ctx, want c08key, wantVal ssa.Value, wantCtx
 		return false
 	}
 	rw, _ := c08arg(wantVal, wantCtx)
-	return rk == rw || c08strip(k) == c08strip(wantVal)
+	if rk == rw || c08strip(k) == c08strip(wantVal) {
+		return true
+	}
+	// the same field of the same element / struct value read twice (d.key in the test and in the write)
+	if fa, isA := rk.(*ssa.Field); isA {
+		if fb, isB := rw.(*ssa.Field); isB {
+			return fa.X == fb.X && fa.Field == fb.Field
+		}
+	}
+	if ua, isA := rk.(*ssa.UnOp); isA && ua.Op == token.MUL {
+		if ub, isB := rw.(*ssa.UnOp); isB && ub.Op == token.MUL {
+			fa, okA := ua.X.(*ssa.FieldAddr)
+			fb, okB := ub.X.(*ssa.FieldAddr)
+			if okA && okB && fa.Field == fb.Field {
+				if fa.X == fb.X {
+					return true
+				}
+				// tbl[i].key twice: the same table at the same index
+				ta, ia, okA := c08elemBase(fa.X)
+				tb, ib, okB := c08elemBase(fb.X)
+				return okA && okB && ta == tb && ia == ib
+			}
+		}
+	}
+	return false
 }
 
 // c08absentAtom: "the request carries no (non-empty) header <key>" is established: Get(key) == "" or len(Get(key)) == 0.
 func c08absentAtom(want c08key, wantVal ssa.Value, wantCtx c08ctx) c08atom {
-	isGet := func(v ssa.Value, ctx c08ctx) bool {
+	var isGetD func(v ssa.Value, ctx c08ctx, depth int) bool
+	isGetD = func(v ssa.Value, ctx c08ctx, depth int) bool {
 		call, ok := v.(*ssa.Call)
-		if !ok || calleeName(&call.Call) != "(net/http.Header).Get" || len(call.Call.Args) < 2 || !c08reqHeader(call.Call.Args[0]) {
-			return false
-		}
-		return c08sameKey(call.Call.Args[1], ctx, want, wantVal, wantCtx)
-	}
-	return func(v ssa.Value, truth bool, ctx c08ctx) bool {
-		b, ok := v.(*ssa.BinOp)
 		if !ok {
 			return false
 		}
-		x, y, op := b.X, b.Y, b.Op
-		if _, isK := x.(*ssa.Const); isK { // constant on the left: mirror
-			x, y = y, x
-			switch op {
-			case token.LSS:
-				op = token.GTR
-			case token.GTR:
-				op = token.LSS
-			case token.LEQ:
-				op = token.GEQ
-			case token.GEQ:
-				op = token.LEQ
+		if calleeName(&call.Call) == "(net/http.Header).Get" && len(call.Call.Args) >= 2 && c08reqHeader(call.Call.Args[0]) {
+			return c08sameKey(call.Call.Args[1], ctx, want, wantVal, wantCtx)
+		}
+		// an accessor of a wrapper type around the header map: func (rh *reqHeaders) get(key string) string { return rh.h.Get(key) }
+		sc := call.Call.StaticCallee()
+		if depth >= 2 || sc == nil || !isRepoFn(sc) || len(sc.Blocks) == 0 || sc.Signature.Results().Len() != 1 {
+			return false
+		}
+		inner := append(c08ctx{call}, ctx...)
+		n, all := 0, true
+		eachInstr(sc, func(i ssa.Instruction) {
+			if r, isR := i.(*ssa.Return); isR {
+				n++
+				if !isGetD(r.Results[0], inner, depth+1) {
+					all = false
+				}
 			}
-		}
-		if s, isS := constString(y); isS && s == "" && isGet(x, ctx) {
-			switch op {
-			case token.EQL:
-				return truth
-			case token.NEQ:
-				return !truth
-			}
-			return false
-		}
-		ln, isLen := x.(*ssa.Call)
-		if !isLen || calleeName(&ln.Call) != "builtin.len" || len(ln.Call.Args) != 1 || !isGet(ln.Call.Args[0], ctx) {
-			return false
-		}
-		n, isN := constInt(y)
-		if !isN {
-			return false
-		}
-		switch {
-		case op == token.EQL && n == 0, op == token.LEQ && n == 0, op == token.LSS && n == 1:
-			return truth
-		case op == token.NEQ && n == 0, op == token.GTR && n == 0, op == token.GEQ && n == 1:
-			return !truth
-		}
-		return false
+		})
+		return n > 0 && all
 	}
+	isGet := func(v ssa.Value, ctx c08ctx) bool { return isGetD(v, ctx, 0) }
+	return func(v ssa.Value, truth bool, ctx c08ctx) bool {
+		empty, ok := c08emptyTest(v, truth, func(x ssa.Value) bool { return isGet(x, ctx) })
+		return ok && empty
+	}
+}
+
+// c08emptyTest: "v == truth" is a test of the text subject against the empty string - subject == "", subject != "",
+// len(subject) == 0 / > 0 / < 1 ..., constant on either side. Returns whether the subject is then known to be empty
+// (true) or known to be non-empty (false).
+func c08emptyTest(v ssa.Value, truth bool, subject func(ssa.Value) bool) (empty bool, ok bool) {
+	b, isB := v.(*ssa.BinOp)
+	if !isB {
+		return false, false
+	}
+	x, y, op := b.X, b.Y, b.Op
+	if _, isK := x.(*ssa.Const); isK { // constant on the left: mirror
+		x, y = y, x
+		switch op {
+		case token.LSS:
+			op = token.GTR
+		case token.GTR:
+			op = token.LSS
+		case token.LEQ:
+			op = token.GEQ
+		case token.GEQ:
+			op = token.LEQ
+		}
+	}
+	if s, isS := constString(y); isS && s == "" && subject(x) {
+		switch op {
+		case token.EQL:
+			return truth, true
+		case token.NEQ:
+			return !truth, true
+		}
+		return false, false
+	}
+	ln, isLen := x.(*ssa.Call)
+	if !isLen || calleeName(&ln.Call) != "builtin.len" || len(ln.Call.Args) != 1 || !subject(ln.Call.Args[0]) {
+		return false, false
+	}
+	n, isN := constInt(y)
+	if !isN {
+		return false, false
+	}
+	switch {
+	case op == token.EQL && n == 0, op == token.LEQ && n == 0, op == token.LSS && n == 1:
+		return truth, true
+	case op == token.NEQ && n == 0, op == token.GTR && n == 0, op == token.GEQ && n == 1:
+		return !truth, true
+	}
+	return false, false
 }
 
 // ---- dependence on client headers ------------------------------------------------------------------------------------
@@ -653,21 +1194,20 @@ func c08deps(v ssa.Value, ctx c08ctx) map[string]bool {
 			out[s] = true
 			return
 		}
-		if p, ok := rk.(*ssa.Parameter); ok {
-			found := false
-			for _, ka := range c08keys(p, nil, 0) {
-				if ka.key.kind == "const" {
-					out[ka.key.name], found = true, true
-				}
+		// a helper parameter, a field of a carrier type, the key column of a literal table: the names it can take
+		found := false
+		for _, ka := range c08keys(rk, nil, 0) {
+			if ka.key.kind == "const" {
+				out[ka.key.name], found = true, true
 			}
-			if found {
-				return
-			}
+		}
+		if found {
+			return
 		}
 		out["<computed>"] = true
 	}
 	walk = func(x ssa.Value, ctx c08ctx, d int) {
-		if x == nil || seen[x] || d > 14 {
+		if x == nil || seen[x] || d > 40 {
 			return
 		}
 		seen[x] = true
@@ -698,6 +1238,12 @@ func c08deps(v ssa.Value, ctx c08ctx) map[string]bool {
 				})
 				return
 			}
+			if c08isBuilderString(n) && len(y.Call.Args) >= 1 {
+				for _, wv := range c08builderWrites(y.Call.Args[0], 0) {
+					walk(wv, ctx, d+1)
+				}
+				return
+			}
 			if isTransparent(n) || strings.HasPrefix(n, "builtin.") || strings.HasPrefix(n, "slices.") || strings.HasPrefix(n, "fmt.Sprint") {
 				for _, a := range y.Call.Args {
 					walk(a, ctx, d+1)
@@ -716,9 +1262,41 @@ func c08deps(v ssa.Value, ctx c08ctx) map[string]bool {
 			// control dependence of the merge
 			// (function-local conditions only: what guards the CALL of a helper is the guard of the write, not a
 			// dependence of the value the helper computes)
-			for _, p := range y.Block().Preds {
-				for _, ft := range localFactsAt(p) {
-					walk(ft.Cond, ctx, d+1)
+			// Predecessors that bring the SAME value form one group: a condition decides the merge only if it holds
+			// for every member of its group (what tells the members of a group apart - the branches inside a loop body
+			// that all continue with the same index - does not influence the merged value).
+			type fk struct {
+				c ssa.Value
+				t bool
+			}
+			groupOf := func(e ssa.Value) string {
+				if k, isK := e.(*ssa.Const); isK {
+					return "const:" + k.String()
+				}
+				return fmt.Sprintf("%p", e)
+			}
+			groups := map[string][]*ssa.BasicBlock{}
+			for k, e := range y.Edges {
+				g := groupOf(e)
+				groups[g] = append(groups[g], y.Block().Preds[k])
+			}
+			if len(groups) > 1 {
+				for _, preds := range groups {
+					count := map[fk]int{}
+					for _, p := range preds {
+						seenF := map[fk]bool{}
+						for _, ft := range localFactsAt(p) {
+							if k := (fk{ft.Cond, ft.Truth}); !seenF[k] {
+								seenF[k] = true
+								count[k]++
+							}
+						}
+					}
+					for k, n := range count {
+						if n == len(preds) {
+							walk(k.c, ctx, d+1)
+						}
+					}
 				}
 			}
 		case *ssa.Parameter:
@@ -761,13 +1339,55 @@ func c08deps(v ssa.Value, ctx c08ctx) map[string]bool {
 								walk(st.Val, ctx, d+1)
 							}
 						}
+					case *ssa.FieldAddr: // a struct literal used as a value (a map key, an argument)
+						for _, r2 := range *z.Referrers() {
+							if st, ok := r2.(*ssa.Store); ok && st.Addr == z {
+								walk(st.Val, ctx, d+1)
+							}
+						}
 					}
 				}
 			}
 		case *ssa.BinOp:
+			// kindOf(r) == kindWebsocket, with kindOf returning constants only: the comparison is decided by what
+			// decides that THIS constant is returned (the control dependences of those returns), not by what tells the
+			// other constants apart
+			if y.Op == token.EQL || y.Op == token.NEQ {
+				for _, pair := range [][2]ssa.Value{{y.X, y.Y}, {y.Y, y.X}} {
+					call, isCall := pair[0].(*ssa.Call)
+					k, isK := pair[1].(*ssa.Const)
+					if !isCall || !isK || k.Value == nil || len(ctx) >= 3 {
+						continue
+					}
+					if rets, ok := c08constReturns(call); ok {
+						inner := append(c08ctx{call}, ctx...)
+						for _, r := range rets {
+							if rk := r.Results[0].(*ssa.Const); rk.Value != nil && constant.Compare(rk.Value, token.EQL, k.Value) {
+								for _, ctl := range c08ctlLocal(r.Block(), inner) {
+									walk(ctl.cond, inner, d+1)
+								}
+							}
+						}
+						return
+					}
+				}
+			}
 			walk(y.X, ctx, d+1)
 			walk(y.Y, ctx, d+1)
 		case *ssa.UnOp:
+			walk(y.X, ctx, d+1)
+		case *ssa.FieldAddr:
+			// a field of a carrier type of package proxy (forwarder.ws, clientConn.secure): what is stored into it
+			for _, st := range c08storesToField(y.X.Type(), y.Field) {
+				walk(st.Val, nil, d+1)
+			}
+		case *ssa.Field:
+			if c08carrier(y.X.Type()) != nil {
+				for _, st := range c08storesToField(y.X.Type(), y.Field) {
+					walk(st.Val, nil, d+1)
+				}
+				return
+			}
 			walk(y.X, ctx, d+1)
 		case *ssa.Extract:
 			walk(y.Tuple, ctx, d+1)
@@ -789,6 +1409,32 @@ func c08deps(v ssa.Value, ctx c08ctx) map[string]bool {
 	}
 	walk(v, ctx, 0)
 	return out
+}
+
+// c08constReturns: the call is a static call of a repository function with one result of a non-boolean basic type all
+// of whose returns are constants of the same kind (an enum-like classification); returns them.
+func c08constReturns(call *ssa.Call) ([]*ssa.Return, bool) {
+	sc := call.Call.StaticCallee()
+	if sc == nil || !isRepoFn(sc) || len(sc.Blocks) == 0 || sc.Signature.Results().Len() != 1 {
+		return nil, false
+	}
+	if b, ok := sc.Signature.Results().At(0).Type().Underlying().(*types.Basic); !ok || b.Info()&types.IsBoolean != 0 {
+		return nil, false
+	}
+	var out []*ssa.Return
+	ok := true
+	eachInstr(sc, func(i ssa.Instruction) {
+		r, isR := i.(*ssa.Return)
+		if !isR {
+			return
+		}
+		if k, isK := r.Results[0].(*ssa.Const); !isK || k.Value == nil {
+			ok = false
+			return
+		}
+		out = append(out, r)
+	})
+	return out, ok && len(out) > 0
 }
 
 // c08clientDep: the value depends on a header the client sent; returns one such key.
@@ -906,9 +1552,12 @@ func c08ctlAt(b *ssa.BasicBlock, ctx c08ctx, depth int) []c08ctl {
 		return append(out, c08ctlAt(ctx[0].Block(), ctx[1:], depth)...)
 	}
 	if fn := b.Parent(); fn != nil && depth < maxHops {
-		if sites := gSites[fn]; len(sites) == 1 && onlyStaticallyCalled(fn) {
-			if _, isGo := sites[0].(*ssa.Go); !isGo && sites[0].Block() != nil && sites[0].Parent() != fn {
-				out = append(out, c08ctlAt(sites[0].Block(), nil, depth+1)...)
+		// a helper with several call sites: reaching b may depend on the conditions of any of them
+		if sites := c08sitesOf(fn); len(sites) >= 1 && onlyStaticallyCalled(fn) {
+			for _, s := range sites {
+				if _, isGo := s.(*ssa.Go); !isGo && s.Block() != nil && s.Parent() != fn {
+					out = append(out, c08ctlAt(s.Block(), nil, depth+1)...)
+				}
 			}
 		}
 	}
